@@ -4,6 +4,6 @@ export VERIF_REPO=$VP_RUN_REPO
 ./setup.sh > setup.log 2>&1 || { echo "setup failed"; tail -20 setup.log; exit 1; }
 for p in C04 C05 C06 C18 C07 C08 C09 C19 C20 C15 C16 C17 C11 C12 C10 C02 C03 C01 C13 C14; do
   s=$(date +%s)
-  r=$(VERIF_SEED=21 ./check $p --tier thorough 2>&1 | grep -E "^(OK|VIOLATION|broken|check could)" | tail -2 | tr '\n' ' ')
+  r=$(VERIF_SEED=${THOROUGH_SEED:-1} ./check $p --tier thorough 2>&1 | grep -E "^(OK|VIOLATION|broken|check could)" | tail -2 | tr '\n' ' ')
   echo "$p: $r ($(( $(date +%s) - s )) s)"
 done
